@@ -90,6 +90,10 @@ KNOWN_TEST_INPUTS = {
 
 # witnesses of findings that were fixed in /repo (known/C03.txt "fixed:" lines): ordinary regression cases now
 REGRESSION_DOCS = [
+    ('<table><colgroup class=x></colgroup><template></template><tbody><tr><td>a</td></tr></tbody></table>', 0, True, 0),
+    ('<table><colgroup><col></colgroup><colgroup><col></colgroup><tr><td>a</td></tr></table>', 0, False, 0),
+    ('<table><colgroup></colgroup><tr><td>a</td></tr></table>', 0, False, 0),
+    ('<!doctype html><html><head><title>t</title></head><body><script>x</script><p>a</p></body></html>', 0, False, 0),
     ('<select><optgroup label=a><option>x</option></optgroup><script>x</script></select>', 0, True, 0),
     ('<ul><li>a</li><!--c--><script>x</script><li>b</li></ul>', 0, True, 0),
     ('a<template><table></table></template> b', 0, True, 0),
@@ -124,7 +128,7 @@ def regression_cases(ctx):
 
 # wrong-design switches of the design models: the behaviour of the code before a fix must violate the design invariant
 NEGATIVE_CFGS = [('HtmlMachine', 'HtmlMachine_neg_%s.cfg' % b, 'DesignRefines') for b in
-                 ('Noscript', 'Template', 'Rt', 'Script', 'PUnknown', 'Optgroup', 'ScriptComment', 'OptgroupScript', 'HiddenLeak')] + [('HtmlAttr', 'HtmlAttr_neg_Amp.cfg', 'PlainOK')]
+                 ('Noscript', 'Template', 'Rt', 'Script', 'PUnknown', 'Optgroup', 'ScriptComment', 'OptgroupScript', 'HiddenLeak', 'Colgroup', 'Body')] + [('HtmlAttr', 'HtmlAttr_neg_Amp.cfg', 'PlainOK')]
 
 
 def negative_runs(ctx):
@@ -665,9 +669,7 @@ def run(ctx):
              'walks, all inputs of html/html_test.go, template-delimiter documents; each crossed with Keep* option sets '
              '(8 pairwise-covering sets; all 128 for the test inputs in thorough) and read as fragment (body context) '
              'and as document; a case is (input bytes, options, fragment?, delimiters); non-trivial = the real minifier '
-             'changed the bytes.  Generator exclusions (known findings, pinned in known/C03.ndjson): X1 template '
-             'directly after </colgroup>; X5 attribute-less colgroup that is empty or follows a colgroup; X6 attribute-less body starting with '
-             'meta/link/script/style/template/noscript; X7 empty attribute-less script/style; X11 optgroup directly inside template contents; X10 a kept comment (KeepComments/KeepSpecialComments) directly after a dropped tag; %d repository test inputs '
+             'changed the bytes.  Generator exclusions (known findings, pinned in known/C03.ndjson): X7 empty attribute-less script/style; X11 optgroup directly inside template contents; X10 a kept comment (KeepComments/KeepSpecialComments) directly after a dropped tag; %d repository test inputs '
              'that are not conforming HTML (listed in tools/props/c03.py)' % len(skipped),
         samples=samples,
         exhaustive=True,
